@@ -63,7 +63,7 @@ def g_str_items(rng, q):
 
 
 def g_lexeme(rng):
-    k = rng.choice(['num', 'numf', 'nums', 'ident', 'identd', 'identu', 'fixed', 'fast', 'pct', 'dim', 'hash', 'atkw', 'atkw',
+    k = rng.choice(['num', 'numf', 'nums', 'pctg', 'dimg', 'ident', 'identd', 'identu', 'fixed', 'fast', 'pct', 'dim', 'hash', 'atkw', 'atkw',
                     'str', 'stri', 'stri', 'uriq', 'uriq', 'fn', 'fn', 'uri', 'uri', 'ur', 'uri2', 'cmt', 'cmt', 'cdc'])
     if k == 'num':
         d = _digits(rng)
@@ -75,6 +75,17 @@ def g_lexeme(rng):
         n = rng.choice([1, 2])
         w = _ident(rng, NAME_START)
         return 'identd,%X,%s' % (n, enc(w)), '-' * n + w, ('IDENT', '-' * n + w)
+    if k in ('pctg', 'dimg'):
+        sg = rng.choice(['', '', '+', '-'])
+        if rng.random() < 0.5:
+            ip, fr = _digits(rng), ''
+        else:
+            ip, fr = ''.join(rng.choice('0123456789') for _ in range(rng.randint(0, 3))), _digits(rng)
+        num = sg + ip + ('.' + fr if fr else '')
+        if k == 'pctg':
+            return 'pctg,%s,%s,%s' % (enc(sg), enc(ip), enc(fr)), num + '%', ('PERCENTAGE', num + '%')
+        u = _ident(rng, IDENT_START)
+        return 'dimg,%s,%s,%s,%s' % (enc(sg), enc(ip), enc(fr), enc(u)), num + u, ('DIMENSION', num + u)
     if k == 'nums':
         sg = rng.choice(['+', '-', '-', ''])
         t = sg + _digits(rng)
